@@ -1,6 +1,7 @@
 #!/bin/bash
 # runs every claimed check (quick) and validates the evidence files; prints a summary
-cd /verif
+cd "$(dirname "$0")/.."
+export VERIF_REPO="${VERIF_REPO:-${VP_RUN_REPO:-/repo}}"
 for c in $(python3 -c "import json;print(' '.join(x['property_id'] for x in json.load(open('MANIFEST.json'))['checks']))"); do
   s=$(date +%s); out=$(python3 tools/verif.py check $c --tier ${1:-quick} 2>&1); rc=$?; e=$(date +%s)
   echo "$c rc=$rc $((e-s))s $(echo "$out" | grep -E 'VIOLATION|KNOWN' | head -2)"
@@ -8,7 +9,7 @@ done
 python3-vt - <<'PY'
 import json,jsonschema,glob
 sch=json.load(open('/root/.vp/EVIDENCE.schema.json'))
-for f in sorted(glob.glob('/verif/evidence/*.json')):
+for f in sorted(glob.glob('evidence/*.json')):
     try:
         d=json.load(open(f)); jsonschema.validate(d,sch); c=d['coverage']
         print(f.split('/')[-1],'valid','obl',c.get('obligations'),'disch',c.get('discharged'),'eval',c.get('evaluations'),'nontriv',c.get('distinct_nontrivial'))
